@@ -880,8 +880,7 @@ func (h *hist) doQuery() {
 	}
 	cols := []string{pick(h.rng, cand)}
 	if len(q.Order) == 2 && h.rng.Intn(2) == 0 && q.Order[0].Field != q.Order[1].Field &&
-		h.c.field(q.Order[0].Field) != nil && h.c.field(q.Order[1].Field) != nil &&
-		!(h.c.field(q.Order[0].Field).Type == tStr && h.c.field(q.Order[1].Field).Type == tStr) {
+		h.c.field(q.Order[0].Field) != nil && h.c.field(q.Order[1].Field) != nil {
 		cols = []string{q.Order[0].Field, q.Order[1].Field}
 	}
 	toggledOn := false
